@@ -15,6 +15,7 @@ from harness.common import machinery_failure
 CHECKS = {
     'C01': 'harness.c01',
     'C02': 'harness.c02',
+    'C03': 'harness.c03',
     'C04': 'harness.c04',
     'C11': 'harness.c11',
     'C05': 'harness.c05',
